@@ -371,7 +371,13 @@ func c09CLINegatives(s *sut.SUT, c *ev.Check, rng *rand.Rand, kdir string, keys 
 		} else {
 			e[p] = 'Q'
 		}
-		negs = append(negs, neg{ki, string(e), fmt.Sprintf("base64 character %d replaced", p)})
+		// an edit that only touches the unused trailing bits of the last quantum
+		// decodes to the SAME ciphertext bytes: not an altered ciphertext
+		if d0, e0 := base64.StdEncoding.DecodeString(ct); e0 == nil {
+			if d1, e1 := base64.StdEncoding.DecodeString(string(e)); e1 != nil || !bytes.Equal(d0, d1) {
+				negs = append(negs, neg{ki, string(e), fmt.Sprintf("base64 character %d replaced", p)})
+			}
+		}
 		if len(b) > 4 {
 			negs = append(negs, neg{ki, string(b[:len(b)-4]), "last base64 quantum removed"})
 			negs = append(negs, neg{ki, string(b[4:]), "first base64 quantum removed"})
